@@ -46,10 +46,12 @@ class Matrix(Qube):
             if isinstance(arg, Vector) and arg._drank_ == 1:
                 return arg.join_items([Matrix])
 
-            arg = Matrix(arg._values_, arg._mask_, example=arg)
+            obj = Matrix(arg._values_, arg._mask_, example=arg)
             if recursive:
-                return arg
-            return arg.wod
+                for (key, deriv) in arg._derivs_.items():
+                    obj.insert_deriv(key, Matrix.as_matrix(deriv,
+                                                           recursive=False))
+            return obj
 
         return Matrix(arg)
 
